@@ -301,6 +301,9 @@ PRODUCTS = {
     # many dates (accumulation over the product dates)
     "asian-m24": ("asian", "MONTHLY", 2.0),  # 24 intervals of length 1/12
     "asian-w26": ("asian", "WEEKLY", 0.5),  # 26 intervals of length 1/52
+    # short horizons (small maximum steps: eps = T/100 = 1e-6, 1e-8 - what eps = h**beta gives on a fine grid)
+    "spot-tiny4": ("spot", None, 1e-4),
+    "spot-tiny6": ("spot", None, 1e-6),
 }
 
 FORMS = ("int", "np", "0d")
@@ -330,14 +333,17 @@ def n_intervals(name: str) -> int:
     return int(maturity / yf)
 
 
-def make_product(name: str, stochastic_dates: bool, form=None):
+def make_product(name: str, stochastic_dates: bool, form=None, maturity_factor=None):
     """Real Product: Spot / Asian underlying (the two producers of time grids in rpylib.product.underlying), identity payoff
-    whose payoff_dates_type selects fixed-date (DETERMINISTIC) or jump-time (STOCHASTIC) simulation."""
+    whose payoff_dates_type selects fixed-date (DETERMINISTIC) or jump-time (STOCHASTIC) simulation.  `maturity_factor`:
+    the same kind of product with the maturity multiplied by this (integer) factor."""
     from rpylib.product.payoff import PayoffDates, PayoffOnTheFly
     from rpylib.product.product import Product
     from rpylib.product.underlying import Asian, Discretisation, Spot
 
     kind, disc, maturity = PRODUCTS[name]
+    if maturity_factor is not None:
+        maturity = maturity * maturity_factor
     if form is not None:
         maturity = as_form(maturity, form)
         if maturity is None:
@@ -425,6 +431,7 @@ class Driver:
         self.route = SIMS[sim][4] if len(SIMS[sim]) > 4 else "direct"
         self.last_path = None  # the object returned by the last simulation, as returned (not copied)
         self.other = None  # a second simulator of the same class (see other_object)
+        self.other2 = None  # ... with another maximum step and another maturity (see other_parameters_object)
         self.rng = ScriptedRNG()
         self.rec = Recorder()
         self.product = make_product(product_name, stochastic_dates=(mode != "fixed"), form=form)
@@ -693,6 +700,63 @@ class Driver:
             sp = self.other.simulate_one_path()
         self.rec.reset()
         return sp
+
+    OTHER_MATURITY_FACTOR = 2
+    OTHER_EPS_FACTOR = 2.5
+
+    def other_parameters_object(self):
+        """A second simulator of the same class and level with OTHER parameters: copy.deepcopy of the object in use, then the
+        public initialisation() for a product of the same kind with twice the maturity and (maximum-step mode) a maximum
+        step 2.5 times as large, pre_computation for one path, one simulated path (discarded) - what the levels of a
+        multilevel estimator are to each other (one maximum step per level) and what a second pricing with another product
+        is.  It is PREPARED here and the object in use simulates afterwards: whatever the objects of a class share (a closure
+        stored on the class, a module-level table keyed too coarsely) then carries the parameters of the wrong object."""
+        if self.other2 is None:
+            self.other2 = copy.deepcopy(self.obj)
+            self._initialise_for_other_parameters(self.other2)
+        return self._one_path_for_other_parameters(self.other2)
+
+    def _other_parameters(self):
+        if getattr(self, "other2_product", None) is None:
+            self.other2_product = make_product(self.product_name, stochastic_dates=(self.mode != "fixed"), form=self.form,
+                                               maturity_factor=self.OTHER_MATURITY_FACTOR)
+            eps2 = None
+            if self.eps is not None:
+                eps2 = self.OTHER_EPS_FACTOR * self.eps
+                if self.form is not None:
+                    eps2 = as_form(eps2, self.form, exact32=True)
+                    if eps2 is None:
+                        eps2 = self.OTHER_EPS_FACTOR * self.eps
+            self.other2_eps = eps2
+        return self.other2_product, self.other2_eps
+
+    def _initialise_for_other_parameters(self, obj):
+        product2, eps2 = self._other_parameters()
+        self.rng.begin_path((), ())
+        obj.initialisation(product2, max_step_epsilon=eps2)
+
+    def _one_path_for_other_parameters(self, obj):
+        product2, _ = self._other_parameters()
+        n2 = len(product2.times_grid()) - 1
+        counts, times = [1] * n2, [[0.5]] * n2
+        self.rng.begin_path(counts if self.mode == "fixed" else (), ())
+        obj.pre_computation(1, product2)
+        if self.mode != "fixed":
+            self.rng.begin_path(counts, times)
+        if self.coupled:
+            sp = obj.simulate_one_path_with_coupling()
+        else:
+            sp = obj.simulate_one_path()
+        self.rec.reset()
+        return sp
+
+    def detour_other_parameters(self):
+        """The object of the case ITSELF is used for another pricing in between: public initialisation() for the other
+        product / maximum step (see other_parameters_object), pre_computation, one simulated path (discarded).  The caller
+        re-initialises it for the product of the case afterwards (precompute_again(reinit=True)): nothing of the detour may
+        survive on the object."""
+        self._initialise_for_other_parameters(self.obj)
+        return self._one_path_for_other_parameters(self.obj)
 
     # -- what the reference needs from the object ------------------------------------------------------------------
     def diffusion_coefficients(self):
